@@ -149,6 +149,8 @@ mod spacelike;
 mod staticfiles;
 mod template;
 mod templateexpression;
+#[cfg(feature = "verif-hooks")]
+pub mod verif_hooks;
 
 use parseresult::show_errors;
 use std::env;
@@ -342,6 +344,8 @@ fn write_if_changed(path: &Path, content: &str) -> Result<()> {
             return Ok(());
         }
     }
+    #[cfg(feature = "verif-hooks")]
+    verif_hooks::before_write(path, content.as_bytes());
     write(path, content.as_bytes())?;
     Ok(())
 }
